@@ -772,12 +772,17 @@ fn check_skip(beh: &Beh, built: &Built, sink: &Sink) {
 		}
 	}
 	// the .slpp reader's own skip option
-	let full2 = real::read_slp(&built.bytes, false, false).ok().unwrap();
+	let full2 = real::read_slp(&built.bytes, false, true).ok().unwrap();
+	let (stored_hash, stored_quirk) = (full2.hash.clone(), full2.quirks.map_or(false, |q| q.double_game_end));
 	match real::write_slpp(full2, Comp::Lz4) {
 		Outcome::Ok(arch) => match real::read_slpp(&arch, true) {
 			Outcome::Ok(g2) => {
 				if let Some(m) = same_meta(&full, &g2) {
 					viols.push(viol("slpp_skip_vs_full", &cls, "mismatch", m));
+				}
+				// what the archive stores besides the game (the replay's hash, the quirk flags) comes back with skip too
+				if g2.hash != stored_hash || g2.quirks.map_or(false, |q| q.double_game_end) != stored_quirk {
+					viols.push(viol("slpp_skip_vs_full", &cls, "mismatch", format!("stored hash / quirks differ under skip-frames: {:?} vs {:?}", g2.hash, stored_hash)));
 				}
 				if g2.frames.id.len() != 0 {
 					viols.push(viol("slpp_skip_vs_full", &cls, "mismatch", format!("{} frames", g2.frames.id.len())));
